@@ -488,7 +488,9 @@ def midi_ticks_to_seconds(
         will be a numpy array with dtype float.
     """
 
-    time_in_seconds = (mpq * midi_ticks) / float(1e6 * ppq)
+    # (ticks may be 32-bit integers, e.g. a column of a note array: the product
+    # with mpq does not fit into 32 bits)
+    time_in_seconds = (mpq * (midi_ticks / float(1e6 * ppq)))
 
     return time_in_seconds
 
